@@ -75,6 +75,7 @@ class Ideal:
         self.files = {}      # (dir, name) -> dict
         self.dbs = {}        # dbid -> dir
         self.mids = {}       # mid -> ((dir,name), kt)
+        self.limited = False # RLIMIT_FSIZE lowered: a flush/sync may legitimately report an error
 
     def check(self, ops, lines, stop_at_first=True):
         bad = []
@@ -113,7 +114,17 @@ class Ideal:
             if k == 'drop': self.mids.pop(t[1], None)
             if k == 'dropdb': self.dbs.pop(t[1], None)
             if k == 'closeall': self.mids.clear(); self.dbs.clear()
+            if self.limited and k in ('flush', 'syncall', 'syncdata', 'dbsyncall', 'dbsyncdata') and got.startswith('err'):
+                return None     # the OS refused a write: reporting the error is what the property asks for
             return None if got == 'ok' else 'ok'
+        if k == 'limit': self.limited = True
+        if k == 'unlimit': self.limited = False
+        if k == 'cpdir':
+            # a copy of the directory taken right after a successful flush/sync: it must open to the current contents
+            import copy
+            for (d, name), st in list(self.files.items()):
+                if d == t[1]:
+                    self.files[(t[2], name)] = copy.deepcopy(st)
         if k in ('limit', 'unlimit', 'kill9', 'trace', 'mutate', 'cpfile', 'cpdir', 'snap', 'stats', 'dirty'):
             if got in ('panic', 'hang') or got.startswith('err'):
                 return 'no panic / error'
